@@ -7,7 +7,7 @@ package tags
 
 //@ interface tags.iterable
 //@ method Len pure
-//@ ensures nonneg: result >= 0
+//@ ensures nonneg: result >= 0 && in_i64(result)
 //@ method Index pure
 //@ requires inrange: 0 <= arg0 && arg0 < this.Len()
 
